@@ -34,6 +34,7 @@ type TestNode struct {
 	Parent      string    `node:"parent"`
 	Description string    `point:"description"`
 	Value       float64   `point:"value"`
+	Tags        []string  `point:"tag"`
 	Role        string    `edgepoint:"role"`
 	Kids        []TestKid `child:"testKid"`
 }
@@ -568,6 +569,14 @@ func sortKids(t *TestNode) {
 	if len(t.Kids) == 0 {
 		t.Kids = nil
 	}
+	// documented limitation of incremental merging (data/decode.go): entries deleted across several calls are not always
+	// trimmed, so trailing zero entries may remain on the client's side; they are not compared
+	for len(t.Tags) > 0 && t.Tags[len(t.Tags)-1] == "" {
+		t.Tags = t.Tags[:len(t.Tags)-1]
+	}
+	if len(t.Tags) == 0 {
+		t.Tags = nil
+	}
 }
 
 type mgrCfg struct {
@@ -674,10 +683,12 @@ func runMgr(prop string) func(s *Sim) {
 				return client.SendNode(a.Nc, data.NodeEdge{ID: id, Parent: parent, Type: typ, Points: pts}, origin)
 			}
 		}
+		curTags := map[string][]string{}
+		maxTags := map[string]int{}
 		originsFor := func(id string) []string { return []string{"", "web", id, "other", "w"} }
 		nid := 0
 		for wl.More(12) {
-			switch weighted(wl, []int{5, 3, 3, 2, 3, 2, 6, 2, 2, 2, 1}) {
+			switch weighted(wl, []int{5, 3, 3, 2, 3, 2, 6, 2, 2, 2, 1, 4}) {
 			case 0: // new testNode under a container
 				nid++
 				id := fmt.Sprintf("t%d", nid)
@@ -801,6 +812,106 @@ func runMgr(prop string) func(s *Sim) {
 				parent := containers[wl.Draw(len(containers))]
 				pts := data.Points{{Type: "value", Value: 1, Time: nextT()}}
 				addOp(fmt.Sprintf("create other %s under %s", id, parent), mkNode(id, parent, "variable", pts, "web"))
+			case 11: // slice-valued configuration: the writer changes an array of tags the way real clients do, by sending the
+				// points data.DiffPoints yields for (its view of the array before, after): grow, overwrite, shrink, grow again
+				if len(testNodes) == 0 {
+					continue
+				}
+				p := testNodes[wl.Draw(len(testNodes))]
+				sendTags := func(what string, pts data.Points) {
+					for i := range pts {
+						pts[i].Time = nextT()
+						pts[i].Origin = "web"
+					}
+					affinity = p.id
+					addOp(fmt.Sprintf("tags %s %s [%s]", p.id, what, shortPts(pts)), func(a *Actor) error {
+						return client.SendNodePoints(a.Nc, p.id, append(data.Points(nil), pts...), true)
+					})
+				}
+				if wl.Chance(1, 4) {
+					// a history in one go: fill the array, drop the last entry twice (two batches), then grow again past the
+					// dropped entries sending only the new last entry
+					cur := curTags[p.id]
+					for len(cur) < 3+wl.Draw(2) {
+						cur = append(cur, fmt.Sprintf("f%d.%d", nOps, len(cur)))
+						sendTags("append", data.Points{{Type: "tag", Key: fmt.Sprint(len(cur) - 1), Text: cur[len(cur)-1]}})
+					}
+					full := len(cur)
+					for i := 0; i < 2; i++ {
+						cur = cur[:len(cur)-1]
+						sendTags("drop last", data.Points{{Type: "tag", Key: fmt.Sprint(len(cur)), Tombstone: 1}})
+					}
+					cur = append(cur, "", fmt.Sprintf("z%d", nOps))
+					sendTags("grow over dropped entries", data.Points{{Type: "tag", Key: fmt.Sprint(len(cur) - 1), Text: cur[len(cur)-1]}})
+					curTags[p.id] = cur
+					if full > maxTags[p.id] {
+						maxTags[p.id] = full
+					}
+					continue
+				}
+				before := append([]string(nil), curTags[p.id]...)
+				after := append([]string(nil), before...)
+				var pts data.Points
+				switch wl.Draw(5) {
+				case 0: // append one entry (a single live point at index len)
+					after = append(after, fmt.Sprintf("g%d", nOps))
+					pts = data.Points{{Type: "tag", Key: fmt.Sprint(len(after) - 1), Text: after[len(after)-1]}}
+				case 1: // drop the last entry (a tombstone on the last index)
+					if len(after) == 0 {
+						continue
+					}
+					after = after[:len(after)-1]
+					pts = data.Points{{Type: "tag", Key: fmt.Sprint(len(after)), Tombstone: 1}}
+				case 2: // overwrite one entry
+					if len(after) == 0 {
+						continue
+					}
+					i := wl.Draw(len(after))
+					after[i] = fmt.Sprintf("o%d", nOps)
+					pts = data.Points{{Type: "tag", Key: fmt.Sprint(i), Text: after[i]}}
+				case 3: // grow leaving a gap over an index that was written and dropped earlier: only the new last entry is sent
+					if len(after)+2 > maxTags[p.id] {
+						continue // a gap entry that never had a point is outside what Merge and Decode agree on (arrays, C10)
+					}
+					after = append(after, "", fmt.Sprintf("x%d", nOps))
+					pts = data.Points{{Type: "tag", Key: fmt.Sprint(len(after) - 1), Text: after[len(after)-1]}}
+				case 4: // what data.DiffPoints yields for an arbitrary rewrite of the array
+					hasGap := false
+					for _, t := range before {
+						hasGap = hasGap || t == ""
+					}
+					if hasGap {
+						continue
+					}
+					n := wl.Draw(5)
+					after = after[:0]
+					for i := 0; i < n; i++ {
+						after = append(after, fmt.Sprintf("r%d.%d", nOps, i))
+					}
+					type tagsOnly struct {
+						Tags []string `point:"tag"`
+					}
+					var err error
+					pts, err = data.DiffPoints(tagsOnly{before}, tagsOnly{after})
+					if err != nil {
+						continue
+					}
+				}
+				if len(pts) == 0 {
+					continue
+				}
+				curTags[p.id] = after
+				if len(after) > maxTags[p.id] {
+					maxTags[p.id] = len(after)
+				}
+				for i := range pts {
+					pts[i].Time = nextT()
+					pts[i].Origin = "web"
+				}
+				affinity = p.id
+				addOp(fmt.Sprintf("tags %s %v -> %v [%s]", p.id, before, after, shortPts(pts)), func(a *Actor) error {
+					return client.SendNodePoints(a.Nc, p.id, append(data.Points(nil), pts...), true)
+				})
 			case 10: // a testNode where no client must run: below a plain node
 				if len(others) == 0 {
 					continue
